@@ -202,3 +202,273 @@ Proof.
     + intros j Hj. apply andb_true_iff in Hj. destruct Hj as [H1 H2]. apply Nat.leb_le in H1.
       apply list_eqb_spec in H2. rewrite <- H2. symmetry. apply slice_length. exact H1.
 Qed.
+
+(* ================= the counter of one document ================= *)
+Definition get (counter : dict) (c : Z) : Z := match lookup c counter with Some v => v | None => 0 end.
+
+Lemma get_incr c counter c' : get (incr c counter) c' = get counter c' + (if c' =? c then 1 else 0).
+Proof.
+  unfold get, lookup. induction counter as [|[k v] r IH]; cbn [incr alookup].
+  - rewrite (Z.eqb_sym c c'). destruct (c' =? c); reflexivity.
+  - destruct (k =? c) eqn:E; cbn [alookup].
+    + apply Z.eqb_eq in E. subst k. rewrite (Z.eqb_sym c c'). destruct (c' =? c); lia.
+    + destruct (k =? c') eqn:E2.
+      * apply Z.eqb_eq in E2. subst k. rewrite E. lia.
+      * exact IH.
+Qed.
+
+Lemma incr_keys c counter x : In x (map fst (incr c counter)) <-> x = c \/ In x (map fst counter).
+Proof.
+  induction counter as [|[k v] r IH]; cbn [incr map fst In]; [intuition|].
+  destruct (k =? c) eqn:E; cbn [map fst In].
+  - apply Z.eqb_eq in E. subst. intuition.
+  - rewrite IH. intuition.
+Qed.
+
+Lemma incr_NoDup c counter : NoDup (map fst counter) -> NoDup (map fst (incr c counter)).
+Proof.
+  induction counter as [|[k v] r IH]; cbn [incr map fst]; intros ND.
+  - constructor; [intros []|constructor].
+  - inversion ND as [|? ? Hn ND']; subst. destruct (k =? c) eqn:E; cbn [map fst].
+    + constructor; assumption.
+    + apply Z.eqb_neq in E. constructor; [|apply IH; exact ND'].
+      intros H. apply incr_keys in H. destruct H as [->|H]; [congruence|tauto].
+Qed.
+
+Definition cols_of (inv : dict) (cold : gdict) (grams : list (list Z)) : list Z :=
+  flat_map (fun g => match col_of inv cold g with Some c => [c] | None => [] end) grams.
+
+Lemma count_doc_gen inv cold grams ctr0 :
+  let ctr := fold_left (fun counter g => match col_of inv cold g with Some c => incr c counter | None => counter end)
+                       grams ctr0 in
+  (forall c, get ctr c = get ctr0 c + Z.of_nat (count_occ Z.eq_dec (cols_of inv cold grams) c)) /\
+  (NoDup (map fst ctr0) -> NoDup (map fst ctr)) /\
+  (forall c, In c (map fst ctr) -> In c (map fst ctr0) \/ In c (cols_of inv cold grams)).
+Proof.
+  revert ctr0. induction grams as [|g grams IH]; intros ctr0; cbn [fold_left cols_of flat_map].
+  - repeat split; [intros c; cbn; lia|tauto|tauto].
+  - fold (cols_of inv cold grams). destruct (col_of inv cold g) as [c0|].
+    + specialize (IH (incr c0 ctr0)). cbv zeta in IH. destruct IH as [IH1 [IH2 IH3]]. repeat split.
+      * intros c. rewrite IH1, get_incr. cbn [app count_occ].
+        destruct (Z.eq_dec c0 c) as [->|Hne]; [rewrite Z.eqb_refl; lia|].
+        replace (c =? c0) with false by (symmetry; apply Z.eqb_neq; congruence). lia.
+      * intros ND. apply IH2, incr_NoDup, ND.
+      * intros c Hc. apply IH3 in Hc. cbn [app In]. rewrite incr_keys in Hc. intuition.
+    + specialize (IH ctr0). cbv zeta in IH. destruct IH as [IH1 [IH2 IH3]]. repeat split; assumption.
+Qed.
+
+Lemma count_doc_get inv cold grams c :
+  get (count_doc inv cold grams) c = Z.of_nat (count_occ Z.eq_dec (cols_of inv cold grams) c).
+Proof. unfold count_doc. destruct (count_doc_gen inv cold grams []) as [H _]. rewrite H. reflexivity. Qed.
+
+Lemma count_doc_NoDup inv cold grams : NoDup (map fst (count_doc inv cold grams)).
+Proof. unfold count_doc. destruct (count_doc_gen inv cold grams []) as [_ [H _]]. apply H. constructor. Qed.
+
+Lemma count_doc_keys inv cold grams c :
+  In c (map fst (count_doc inv cold grams)) -> In c (cols_of inv cold grams).
+Proof.
+  unfold count_doc. destruct (count_doc_gen inv cold grams []) as [_ [_ H]]. intros Hc.
+  destruct (H c Hc) as [[]|H']. exact H'.
+Qed.
+
+Lemma lookup_not_key k d : ~ In k (map fst d) -> lookup k d = None.
+Proof.
+  intros H. destruct (lookup k d) as [v|] eqn:E; [|reflexivity]. exfalso. apply H.
+  apply lookup_In in E. change k with (fst (k, v)). apply in_map. exact E.
+Qed.
+
+Lemma row_sum_get counter j :
+  NoDup (map fst counter) -> sumZ (map (fun cv => if fst cv =? j then snd cv else 0) counter) = get counter j.
+Proof.
+  induction counter as [|[k v] r IH]; intros ND; [reflexivity|]. inversion ND as [|? ? Hn ND']; subst.
+  cbn [map sumZ fst snd]. rewrite (IH ND'). unfold get, lookup; cbn [alookup].
+  destruct (k =? j) eqn:E; [|reflexivity]. apply Z.eqb_eq in E. subst k.
+  fold (lookup j r). rewrite (lookup_not_key _ _ Hn). lia.
+Qed.
+
+Lemma ng_transform_cell_cols M docs i j :
+  (i < length docs)%nat ->
+  cell (entries (ng_transform M docs)) (Z.of_nat i) j
+  = Z.of_nat (count_occ Z.eq_dec (cols_of (ng_inv M) (ng_cold M) (doc_grams M (nth i docs []))) j).
+Proof.
+  intros Hi. unfold ng_transform, entries; cbn [snd].
+  rewrite (cell_by_rows (fun i' => count_doc (ng_inv M) (ng_cold M) (doc_grams M (nth i' docs [])))
+                        (fun _ cv => fst cv) (fun _ cv => snd cv)).
+  replace ((0 <=? i) && (i <? 0 + length docs))%nat with true
+    by (symmetry; apply andb_true_iff; split; [apply Nat.leb_le|apply Nat.ltb_lt]; lia).
+  rewrite row_sum_get by apply count_doc_NoDup. apply count_doc_get.
+Qed.
+
+(* ================= from token indices back to labels ================= *)
+Definition gram_key (G : list Z) : gkey := match G with [l] => Bare l | _ => Tup G end.
+Definition known (tokdict : dict) (doc : list Z) : list Z := filter (tok_known tokdict) doc.
+Definition idx_of (tokdict : dict) (l : Z) : Z := match lookup l tokdict with Some i => i | None => 0 end.
+Definition inverse_ok (tokdict inv : dict) : Prop := forall l i, lookup l tokdict = Some i -> lookup i inv = Some l.
+Definition gdict_inj (d : gdict) : Prop := forall k k' v, glookup k d = Some v -> glookup k' d = Some v -> k = k'.
+
+Lemma gkey_eqb_spec x y : gkey_eqb x y = true <-> x = y.
+Proof.
+  destruct x as [a|g], y as [b|h]; cbn; try (split; discriminate).
+  - rewrite Z.eqb_eq. split; [intros ->; reflexivity|intros [= ->]; reflexivity].
+  - rewrite list_eqb_spec. split; [intros ->; reflexivity|intros [= ->]; reflexivity].
+Qed.
+
+Lemma glookup_In k v d : glookup k d = Some v -> In (k, v) d.
+Proof. apply (alookup_In gkey_eqb gkey_eqb_spec). Qed.
+Lemma glookup_key k d : In k (map fst d) -> exists v, glookup k d = Some v.
+Proof. apply (alookup_key gkey_eqb gkey_eqb_spec). Qed.
+Lemma NoDup_values_ginj d : NoDup (map snd d) -> gdict_inj d.
+Proof. intros ND k k' v. apply (alookup_inj gkey_eqb gkey_eqb_spec). exact ND. Qed.
+
+Lemma kept_known tokdict doc : kept tokdict doc = map (idx_of tokdict) (known tokdict doc).
+Proof.
+  unfold kept, known, idx_of, tok_known. induction doc as [|t doc IH]; [reflexivity|]. cbn [flat_map filter].
+  destruct (lookup t tokdict) as [i|] eqn:E; cbn [is_some].
+  - cbn [map app]. rewrite E, IH. reflexivity.
+  - exact IH.
+Qed.
+
+Lemma known_Forall tokdict doc : Forall (fun l => tok_known tokdict l = true) (known tokdict doc).
+Proof. apply Forall_forall. intros l H. apply filter_In in H. tauto. Qed.
+
+Lemma map_opt_known tokdict inv G :
+  inverse_ok tokdict inv -> Forall (fun l => tok_known tokdict l = true) G ->
+  map_opt (fun i => lookup i inv) (map (idx_of tokdict) G) = Some G.
+Proof.
+  intros W. induction G as [|l G IH]; intros HF; [reflexivity|]. inversion HF as [|? ? Hl HG]; subst.
+  cbn [map map_opt]. rewrite (IH HG). unfold tok_known in Hl. unfold idx_of.
+  destruct (lookup l tokdict) as [i|] eqn:E; [|discriminate]. rewrite (W l i E). reflexivity.
+Qed.
+
+Lemma token_gram_known tokdict inv G :
+  inverse_ok tokdict inv -> Forall (fun l => tok_known tokdict l = true) G ->
+  token_gram inv (map (idx_of tokdict) G) = Some (gram_key G).
+Proof.
+  intros W HF. pose proof (map_opt_known tokdict inv G W HF) as H.
+  destruct G as [|l [|l2 G]].
+  - reflexivity.
+  - cbn [map token_gram gram_key]. cbn [map map_opt] in H.
+    destruct (lookup (idx_of tokdict l) inv) as [x|]; [|discriminate]. injection H as ->. reflexivity.
+  - cbn [map token_gram gram_key]. cbn [map] in H. rewrite H. reflexivity.
+Qed.
+
+Lemma gram_key_inj G G' : gram_key G = gram_key G' -> G = G'.
+Proof.
+  destruct G as [|a [|a2 G]], G' as [|b [|b2 G']]; cbn; intros H; try discriminate; try (injection H; congruence).
+  reflexivity.
+Qed.
+
+Lemma gram_key_not_tup1 G l : gram_key G <> Tup [l].
+Proof. destruct G as [|a [|a2 G]]; cbn; congruence. Qed.
+
+Definition label_cols (cold : gdict) (LG : list (list Z)) : list Z :=
+  flat_map (fun G => match glookup (gram_key G) cold with Some c => [c] | None => [] end) LG.
+
+Lemma cols_of_labels tokdict inv cold LG :
+  inverse_ok tokdict inv -> Forall (Forall (fun l => tok_known tokdict l = true)) LG ->
+  cols_of inv cold (map (map (idx_of tokdict)) LG) = label_cols cold LG.
+Proof.
+  intros W. unfold cols_of, label_cols, col_of. induction LG as [|G LG IH]; intros HF; [reflexivity|].
+  inversion HF as [|? ? HG HLG]; subst. cbn [map flat_map]. rewrite (token_gram_known _ _ _ W HG), (IH HLG). reflexivity.
+Qed.
+
+Lemma label_cols_count cold LG G0 c0 :
+  gdict_inj cold -> glookup (gram_key G0) cold = Some c0 ->
+  count_occ Z.eq_dec (label_cols cold LG) c0 = count_occ gram_dec LG G0.
+Proof.
+  intros Hinj H0. unfold label_cols. induction LG as [|G LG IH]; [reflexivity|]. cbn [flat_map].
+  rewrite count_occ_app, IH. destruct (gram_dec G G0) as [->|Hne].
+  - rewrite H0. cbn [count_occ]. destruct (Z.eq_dec c0 c0); [|congruence].
+    destruct (gram_dec G0 G0); [reflexivity|congruence].
+  - rewrite (count_occ_cons_neq gram_dec _ Hne).
+    destruct (glookup (gram_key G) cold) as [c|] eqn:E; [|reflexivity]. cbn [count_occ].
+    destruct (Z.eq_dec c c0) as [->|]; [|reflexivity].
+    exfalso. apply Hne. apply gram_key_inj. eapply Hinj; eassumption.
+Qed.
+
+Lemma label_cols_tup1 cold LG l c0 :
+  gdict_inj cold -> glookup (Tup [l]) cold = Some c0 -> count_occ Z.eq_dec (label_cols cold LG) c0 = 0%nat.
+Proof.
+  intros Hinj H0. unfold label_cols. induction LG as [|G LG IH]; [reflexivity|]. cbn [flat_map].
+  rewrite count_occ_app, IH. destruct (glookup (gram_key G) cold) as [c|] eqn:E; [|reflexivity]. cbn [count_occ].
+  destruct (Z.eq_dec c c0) as [->|]; [|reflexivity].
+  exfalso. apply (gram_key_not_tup1 G l). eapply Hinj; eassumption.
+Qed.
+
+Lemma In_slice {A} (x : A) i n s : In x (slice i n s) -> In x s.
+Proof. unfold slice. intros H. eapply In_skipn, In_firstn, H. Qed.
+
+Lemma ngrams_of_Forall {A} (P : A -> Prop) (s : list A) n b :
+  Forall P s -> Forall (Forall P) (ngrams_of s n b).
+Proof.
+  intros Hs. rewrite Forall_forall in Hs. apply Forall_forall. intros G HG. apply Forall_forall. intros x Hx.
+  apply Hs. unfold ngrams_of in HG. apply in_flat_map in HG. destruct HG as [i [_ HG]]. destruct b.
+  - destruct (i + n <=? length s)%nat; [|destruct HG]. destruct HG as [<-|[]]. eapply In_slice, Hx.
+  - apply in_flat_map in HG. destruct HG as [j [_ HG]].
+    destruct (i + j <=? length s)%nat; [|destruct HG]. destruct HG as [<-|[]]. eapply In_slice, Hx.
+Qed.
+
+Definition ng_wf (M : ng_model) : Prop := inverse_ok (ng_tokdict M) (ng_inv M) /\ gdict_inj (ng_cold M).
+
+Definition label_grams (M : ng_model) (doc : list Z) : list (list Z) :=
+  ngrams_of (known (ng_tokdict M) doc) (ng_n M) (ng_beh M).
+
+Lemma doc_grams_labels M doc :
+  doc_grams M doc = map (map (idx_of (ng_tokdict M))) (label_grams M doc).
+Proof. unfold doc_grams, label_grams. rewrite kept_known. apply ngrams_of_map. Qed.
+
+Lemma ng_cols_labels M doc :
+  ng_wf M -> cols_of (ng_inv M) (ng_cold M) (doc_grams M doc) = label_cols (ng_cold M) (label_grams M doc).
+Proof.
+  intros [W _]. rewrite doc_grams_labels. apply cols_of_labels; [exact W|].
+  apply ngrams_of_Forall, known_Forall.
+Qed.
+
+(* the entry of column c0 = glookup (key G0): the number of occurrences of the label gram G0 among the n-grams of
+   the kept tokens of document i *)
+Theorem ng_cell M docs i G0 c0 :
+  ng_wf M -> (i < length docs)%nat -> glookup (gram_key G0) (ng_cold M) = Some c0 ->
+  cell (entries (ng_transform M docs)) (Z.of_nat i) c0
+  = Z.of_nat (count_occ gram_dec (label_grams M (nth i docs [])) G0).
+Proof.
+  intros W Hi H0. rewrite ng_transform_cell_cols by exact Hi. rewrite (ng_cols_labels _ _ W). f_equal.
+  apply label_cols_count; [apply W|exact H0].
+Qed.
+
+(* a column keyed by a 1-tuple is never incremented (the known finding) *)
+Theorem ng_cell_tuple1 M docs i l c0 :
+  ng_wf M -> (i < length docs)%nat -> glookup (Tup [l]) (ng_cold M) = Some c0 ->
+  cell (entries (ng_transform M docs)) (Z.of_nat i) c0 = 0.
+Proof.
+  intros W Hi H0. rewrite ng_transform_cell_cols by exact Hi. rewrite (ng_cols_labels _ _ W).
+  rewrite (label_cols_tup1 _ _ l c0); [reflexivity|apply W|exact H0].
+Qed.
+
+(* ---- C01: shape, index range, unseen tokens ---- *)
+Lemma cols_of_in_cold inv cold grams c : In c (cols_of inv cold grams) -> In c (map snd cold).
+Proof.
+  unfold cols_of, col_of. intros H. apply in_flat_map in H. destruct H as [g [_ H]].
+  destruct (token_gram inv g) as [k|]; [|destruct H]. destruct (glookup k cold) as [c'|] eqn:E; [|destruct H].
+  destruct H as [<-|[]]. apply glookup_In in E. change c' with (snd (k, c')). apply in_map. exact E.
+Qed.
+
+Theorem ng_transform_in_range M docs t :
+  Forall (fun kv => 0 <= snd kv < Z.of_nat (length (ng_cold M))) (ng_cold M) ->
+  In t (entries (ng_transform M docs)) ->
+  0 <= trow t < nrows (ng_transform M docs) /\ 0 <= tcol t < ncols (ng_transform M docs).
+Proof.
+  intros W Ht. unfold ng_transform, entries, nrows, ncols in *; cbn [fst snd] in *.
+  apply in_flat_map in Ht. destruct Ht as [i [Hi Ht]]. apply in_seq in Hi.
+  apply in_map_iff in Ht. destruct Ht as [[c v] [<- Hcv]]. unfold trow, tcol; cbn [fst snd]. split; [lia|].
+  assert (Hc : In c (map snd (ng_cold M))).
+  { eapply cols_of_in_cold, count_doc_keys. change c with (fst (c, v)). apply in_map. exact Hcv. }
+  apply in_map_iff in Hc. destruct Hc as [kv [<- Hkv]]. rewrite Forall_forall in W. apply (W _ Hkv).
+Qed.
+
+Theorem ng_transform_strip M docs :
+  ng_transform M (map (filter (tok_known (ng_tokdict M))) docs) = ng_transform M docs.
+Proof.
+  unfold ng_transform. rewrite map_length. f_equal. apply flat_map_ext. intros i. f_equal. f_equal.
+  change [] with (filter (tok_known (ng_tokdict M)) []) at 1. rewrite map_nth.
+  unfold doc_grams. rewrite kept_strip. reflexivity.
+Qed.
